@@ -13,7 +13,7 @@ ID = 'C11'
 LEVEL = 'model_checking'
 RULE = ('every grammar sentence (clause or directive) with <= N tokens over one representative per token class, each '
         'with every token replaced by the other members of its lexical class, plus boundary families enumerated '
-        'completely: numeral spellings (0 00 01 007 10 123 20 digits) x 5 term positions; characters outside the lexicon (byte order marks, zero-width space, NUL, ^Z, no-break space) as first / last / only character; sources of 1 and 2 MiB with clauses around the MiB marks; 14 hostile source file NAMES with debug_filename on (lone surrogates, line breaks, NUL, coding declarations, 300 characters); numerals of 50 .. 9000 digits (around Python\'s limit of 4300 digits); 16 variable names that are '
+        'completely: numeral spellings (0 00 01 007 10 123 20 digits) x 5 term positions; characters outside the lexicon (byte order marks, zero-width space, NUL, ^Z, no-break space) as first / last / only character; sources of 1 and 2 MiB with clauses around the MiB marks; 14 hostile source file NAMES with debug_filename on (lone surrogates, line breaks, NUL, coding declarations, 300 characters) x 7 programs incl. ones at and beyond the sizes Python can load; numerals of 50 .. 9000 digits (around Python\'s limit of 4300 digits); 16 variable names that are '
         'Python constants / engine names / loop-variable look-alikes x 4 clause shapes; 24 predicate names (Python '
         'keywords, suffix look-alikes, quoted names with spaces, operators, digits, non-ASCII, empty) as clause head; '
         'bodies that cannot succeed; one predicate name spelled in several ways; 26 words of the target language (yield, return, pass, doBreak, ...) as atoms, functor names and goal names in succeeding and never-succeeding clauses; conjunction length 1..30, a grid of mixed sizes (0..20 goals x if-then-else nested 0..12 deep x 0/4/9 structured head arguments; 1..25 negated goals; 1..9 if-then-else goals in sequence), head arity 0..40, term nesting 1..120, list length '
@@ -280,6 +280,13 @@ HOSTILE_FILE_NAMES = ['prog.pl', 'caf\udce9.pl', 'a\nb.pl', 'a\rb.pl', 'x\x00y.p
                       "it's \"quoted\".pl", 'tab\there.pl', 'sep\u2028here.pl', '', '-', '#!shebang']
 
 
+# ... with small programs and with programs at and beyond the sizes Python can load (the loadability of
+# what is returned is decided for the text that is returned, whatever the file is called)
+NAME_TEXTS = ['foo(a).\n', 'p(X) :- q(X), \\+ r(X).\nq(b).\n',
+              'p(X) :- %s.\n' % ', '.join('g%d(X)' % i for i in range(25)), 'p(X) :- %s.\n' % ', '.join('g%d(X)' % i for i in range(18)),
+              'p(%s).\n' % ', '.join('a%d' % i for i in range(22)), 'p(%sa%s).\n' % ('f(' * 120, ')' * 120), 'p(%sa%s).\n' % ('f(' * 60, ')' * 60)]
+
+
 def check_file_name(name, text):
     class NCtx(impl.Ctx):
         debug_filename = True
@@ -294,12 +301,12 @@ def check_file_name(name, text):
         yp.load_script_from_string(out, fn=impl.SCRIPT_FN)
     except Exception as e:  # noqa: BLE001
         return ('violation', 'file-name:accepted-but-not-loadable:' + type(e).__name__,
-                'source file name %r (debug_filename on), text %r: the compiler returned text that does not load: %r' % (name, text, e), None)
+                'source file name %r (debug_filename on), text %r: the compiler returned text that does not load: %r' % (name, text[:200], e), None)
     added = sorted(set(yp.eval_context) - before)
     r = rg.analyse(text)
     want = sorted(set('%s_%d' % h for h in r.heads))
     if added != want:
-        return ('violation', 'file-name:defined-predicates-differ', 'source file name %r (debug_filename on), text %r: loading adds %s, the clause heads are %s' % (name, text, added, want), None)
+        return ('violation', 'file-name:defined-predicates-differ', 'source file name %r (debug_filename on), text %r: loading adds %s, the clause heads are %s' % (name, text[:200], added, want), None)
     return ('ok', None, None, ('loaded-with-file-name', len(added)))
 
 
@@ -328,7 +335,7 @@ def _run_shard(spec):
     acc = Acc()
     if kind == 'names':
         for ni, name in enumerate(HOSTILE_FILE_NAMES):
-            for ti, text in enumerate(('foo(a).\n', 'p(X) :- q(X), \\+ r(X).\nq(b).\n')):
+            for ti, text in enumerate(NAME_TEXTS):
                 acc.n['evaluations'] += 1
                 acc.n['validated'] += 1
                 acc.n['transitions'] += 2
